@@ -817,9 +817,9 @@ func partB(run *rep.Run, seed int64) {
 				}
 			}
 			if dup := firstDup(after); dup != "" {
-				// a listing that names a model twice is kept twice in the per-endpoint list; the
-				// property asks for consistency, not de-duplication, so this is only counted
-				run.Count("observation_duplicate_kept_in_endpoint_listing", 1)
+				// a listing that names a model twice still describes one model: a catalogue that
+				// shows it twice (and counts it twice) disagrees with the lookup and the totals
+				run.Violation("C20/catalogue/duplicate-entry-kept", fmt.Sprintf("after a listing that repeats %q the endpoint's catalogue lists it more than once", dup), wit)
 			}
 			// cross-view consistency: every model of the per-endpoint listing resolves back to
 			// this endpoint, and no other model does
